@@ -826,6 +826,25 @@ func idAbsent(id ssa.Value, facts []guard.Fact, depth int) (bool, string) {
 			return true, ""
 		}
 	}
+	// the ID handed back by a helper of the package: absent on each of its success returns
+	if hc, hi := guard.CallOf(id); hc != nil && depth < 3 && !isNewRandomKeyID(id) {
+		if g := hc.Call.StaticCallee(); g != nil && g.Blocks != nil && core.Rel(core.PkgOf(g)) == "keyset" {
+			all, some := true, false
+			for _, ret := range guard.SuccessReturns(g) {
+				if hi >= len(ret.Results) {
+					all = false
+					continue
+				}
+				some = true
+				if ok, _ := idAbsent(ret.Results[hi], guard.BlockFacts(ret.Block()), depth+1); !ok {
+					all = false
+				}
+			}
+			if all && some {
+				return true, ""
+			}
+		}
+	}
 	if phi, ok := id.(*ssa.Phi); ok && depth < 4 {
 		for i, e := range phi.Edges {
 			if ok, why := idAbsent(e, edgeFactsInto(phi.Block().Preds[i], phi.Block()), depth+1); !ok {
@@ -882,6 +901,25 @@ func idNoted(id ssa.Value, at *ssa.BasicBlock, depth int) (bool, string) {
 	})
 	if found {
 		return true, ""
+	}
+	// the ID handed back by a helper of the package: recorded on each of its success returns
+	if hc, hi := guard.CallOf(id); hc != nil && depth < 3 && !isNewRandomKeyID(id) {
+		if g := hc.Call.StaticCallee(); g != nil && g.Blocks != nil && core.Rel(core.PkgOf(g)) == "keyset" {
+			all, some := true, false
+			for _, ret := range guard.SuccessReturns(g) {
+				if hi >= len(ret.Results) {
+					all = false
+					continue
+				}
+				some = true
+				if ok, _ := idNoted(ret.Results[hi], ret.Block(), depth+1); !ok {
+					all = false
+				}
+			}
+			if all && some {
+				return true, ""
+			}
+		}
 	}
 	if phi, ok := id.(*ssa.Phi); ok && depth < 4 {
 		for i, e := range phi.Edges {
